@@ -53,7 +53,11 @@ func (h *storeHarness) Decode(b []byte) (any, error) {
 func (h *storeHarness) Gen(r *Rand, tier string, clean bool) any {
 	c := &StoreCase{Rich: r.Chance(0.5)}
 	c.Collide = h.prop == "C01" && !clean && r.Chance(0.5)
-	c.U = genUniverse(r, r.Range(8, 20), c.Rich, c.Collide)
+	maxU := 20
+	if tier == "thorough" {
+		maxU = 24
+	}
+	c.U = genUniverse(r, r.Range(8, maxU), c.Rich, c.Collide)
 	ng := r.Range(1, 3)
 	for i := 0; i < ng; i++ {
 		c.Names = append(c.Names, fmt.Sprintf("?g%d", i))
@@ -64,6 +68,9 @@ func (h *storeHarness) Gen(r *Rand, tier string, clean bool) any {
 	nops := r.Range(4, 40)
 	if r.Chance(0.1) {
 		nops = r.Range(40, 90)
+		if tier == "thorough" {
+			nops = r.Range(40, 160)
+		}
 	}
 	for i := 0; i < nops; i++ {
 		op := StoreOp{G: r.Intn(ng)}
